@@ -462,4 +462,164 @@ theorem updateQuantifier_sound (v : RxV) (first last : Item α) (middle : List (
       · injection hq with h1 h2
         exact ⟨m', by rw [← h1, h], hsound⟩
 
+/-! ### the re-rendered pattern stays satisfiable -/
+
+def okPairs : List (Nat × Nat) → Prop
+  | [] => True
+  | (a, b) :: ds => a ≤ b ∧ okPairs ds
+
+theorem distRange_ok (bounds : List (Nat × Nat)) :
+    ∀ remMin remMax d, distRange bounds remMin remMax = some d → okPairs d := by
+  induction bounds with
+  | nil =>
+    intro remMin remMax d h
+    simp only [distRange] at h
+    by_cases h0 : remMin > 0
+    · simp [h0] at h
+    · simp only [h0, if_false, Option.some.injEq] at h; subst h; trivial
+  | cons b rest ih =>
+    obtain ⟨mn, mx⟩ := b
+    intro remMin remMax d h
+    simp only [distRange] at h
+    by_cases hgt : partMinOf remMin mn mx > partMaxOf remMax mx
+    · simp [hgt] at h
+    · simp only [hgt, if_false] at h
+      cases hr : distRange rest (remMin - partMinOf remMin mn mx) (nextMax remMax (partMaxOf remMax mx)) with
+      | none => simp [hr] at h
+      | some r =>
+        simp only [hr, Option.some.injEq] at h
+        subst h
+        exact ⟨by omega, ih _ _ r hr⟩
+
+theorem diag_ok (ls : List Nat) : okPairs (diag ls) := by
+  induction ls with
+  | nil => trivial
+  | cons l ls ih => exact ⟨Nat.le_refl l, ih⟩
+
+theorem distribute_ok (v : RxV) (bounds : List (Nat × Nat)) (lo hi : Option Nat) (d : List (Nat × Nat))
+    (h : distribute v bounds lo hi = some d) : okPairs d := by
+  unfold distribute at h
+  by_cases hex : isExact lo hi = true
+  · simp only [hex, if_true] at h
+    cases hf : findComb bounds (lo.getD 0) with
+    | none => simp [hf] at h
+    | some ls => simp only [hf, Option.some.injEq] at h; subst h; exact diag_ok ls
+  · simp only [hex, Bool.false_eq_true, if_false] at h
+    exact distRange_ok bounds _ _ d h
+
+theorem width1_inhabited (hinh : ∀ a, ∃ c, sat a c = true) (r : Re α) (hw : width1 r = true) :
+    ∃ c, Matches sat r [c] := by
+  induction r with
+  | atom a => obtain ⟨c, hc⟩ := hinh a; exact ⟨c, .atom hc⟩
+  | alt r s ihr _ =>
+    simp only [width1, Bool.and_eq_true] at hw
+    obtain ⟨c, hc⟩ := ihr hw.1
+    exact ⟨c, .altL hc⟩
+  | _ => simp [width1] at hw
+
+theorem rep_replicate {r : Re α} {c : Char} (h : Matches sat r [c]) (a b : Nat) (hab : a ≤ b) :
+    Matches sat (.rep r a b) (List.replicate a c) := by
+  have := Matches.rep (sat := sat) (r := r) (lo := a) (hi := b) (List.replicate a [c])
+    (fun w hw => by rw [List.eq_of_mem_replicate hw]; exact h) (by simp) (.inr (by simpa using hab))
+  have e : (List.replicate a [c]).flatten = List.replicate a c := by
+    induction a with
+    | zero => rfl
+    | succ n ih => simp [List.replicate_succ]
+  rwa [e] at this
+
+/-- the rebuilt middle is matched by some string whenever every new bound pair is consistent and atoms are inhabited -/
+theorem rebuild_nonempty (hinh : ∀ a, ∃ c, sat a c = true) (middle : List (Item α)) (d : List (Nat × Nat))
+    (hs : simpleMiddle middle = true) (hd : Dist (repBounds middle) d) (hok : okPairs d) :
+    ∃ s, Matches sat (seqRe (rebuild middle d)) s := by
+  induction middle generalizing d with
+  | nil => cases hd; exact ⟨[], .eps⟩
+  | cons x rest ih =>
+    cases x with
+    | lit a =>
+      simp only [simpleMiddle] at hs
+      simp only [repBounds] at hd
+      have hr : rebuild (Item.lit a :: rest) d = Item.lit a :: rebuild rest d := by cases d <;> rfl
+      rw [hr]
+      obtain ⟨s, hs'⟩ := ih d hs hd hok
+      obtain ⟨c, hc⟩ := hinh a
+      exact ⟨[c] ++ s, .cat (.atom hc) hs'⟩
+    | rep lo hi body =>
+      simp only [simpleMiddle, Bool.and_eq_true] at hs
+      simp only [repBounds] at hd
+      cases hd with
+      | @cons _ _ a b _ ds _ _ hrest =>
+        simp only [okPairs] at hok
+        obtain ⟨s, hs'⟩ := ih ds hs.2 hrest hok.2
+        obtain ⟨c, hc⟩ := width1_inhabited hinh body hs.1
+        exact ⟨List.replicate a c ++ s, .cat (rep_replicate hc a b hok.1) hs'⟩
+    | _ => simp [simpleMiddle] at hs
+
+
+/-- the re-rendered pattern is still matched by some string (it is not turned into an impossible one) -/
+theorem updateQuantifier_keeps (hinh : ∀ a, ∃ c, sat a c = true) (v : RxV) (first last : Item α) (middle : List (Item α))
+    (lo hi : Option Nat) (out : List (Item α))
+    (hb : isBegin first = true) (he : isEnd last = true) (hs : simpleMiddle middle = true)
+    (hwf : wfBounds (repBounds middle)) (hbare : ∀ a, middle ≠ [.lit a])
+    (hv : v.zeroMax = .repaired ∨ ∀ h, hi = some h → h ≠ countLits middle) (hhi : ∀ h, hi = some h → h < MAXREPEAT)
+    (hq : updateQuantifier v (first :: middle ++ [last]) lo hi = .ok out true) :
+    ∃ middle' s, out = first :: middle' ++ [last] ∧ Matches sat (seqRe middle') s := by
+  have hfa := isBegin_isAt first hb
+  have hla := isEnd_isAt last he
+  unfold updateQuantifier at hq
+  split at hq
+  · cases hq
+  · rcases middle with _ | ⟨x, _ | ⟨y, rest⟩⟩
+    · have hl : updateItem v last lo hi = some (last, false) := by cases last <;> simp_all [isEnd, updateItem]
+      have e0 : first :: ([] : List (Item α)) ++ [last] = [first, last] := rfl
+      rw [e0, handleParsed_two] at hq
+      simp only [hfa, if_true, hl] at hq
+      cases hq
+    · have e0 : first :: [x] ++ [last] = [first, x, last] := rfl
+      rw [e0, handleParsed_three] at hq
+      simp only [hfa, hla, Bool.and_self, if_true] at hq
+      cases x with
+      | rep rlo rhi body =>
+        simp only [simpleMiddle, Bool.and_true] at hs
+        simp only [updateItem] at hq
+        by_cases hgt : (buildSize rlo rhi lo hi).1 > (buildSize rlo rhi lo hi).2
+        · simp only [hgt, if_true] at hq; cases hq
+        · simp only [hgt, if_false] at hq
+          cases hq
+          obtain ⟨c, hc⟩ := width1_inhabited hinh body hs
+          exact ⟨[.rep (buildSize rlo rhi lo hi).1 (buildSize rlo rhi lo hi).2 body], _, rfl,
+            .cat (rep_replicate hc _ _ (by omega)) .eps⟩
+      | lit a => exact absurd rfl (hbare a)
+      | _ => simp [simpleMiddle] at hs
+    · have hshape : ∃ z rest', rest ++ [last] = z :: rest' := by
+        cases rest with
+        | nil => exact ⟨last, [], rfl⟩
+        | cons z r => exact ⟨z, r ++ [last], rfl⟩
+      obtain ⟨z, rest', hz⟩ := hshape
+      have hitems : first :: (x :: y :: rest) ++ [last] = first :: x :: y :: z :: rest' := by
+        simp only [List.cons_append, hz]
+      have hback : x :: y :: z :: rest' = (x :: y :: rest) ++ [last] := by simp only [List.cons_append, hz]
+      rw [hitems, handleParsed_many] at hq
+      rw [hback, List.dropLast_concat, List.getLast?_concat] at hq
+      simp only [hfa, hla, simpleMiddle_all _ hs, Bool.and_self, if_true] at hq
+      rcases handleAnchored_cases v first (x :: y :: rest) last lo hi with h | ⟨lo', hi', d, h1, h2, hd, h⟩
+      · rw [h] at hq; cases hq
+      · rw [h] at hq
+        injection hq with e1 _
+        have hv' : v.zeroMax = .repaired ∨ hi' ≠ some 0 := by
+          rcases hv with hv | hv
+          · left; exact hv
+          · right
+            rcases subLen_some h2 with ⟨_, e⟩ | ⟨h', e1, e2, e3⟩
+            · rw [e]; simp
+            · rw [e3]; have := hv h' e1; simp; omega
+        have hhi' : ∀ h, hi' = some h → h < MAXREPEAT := by
+          intro h hh
+          rcases subLen_some h2 with ⟨_, e⟩ | ⟨h', e1, e2, e3⟩
+          · rw [e] at hh; cases hh
+          · rw [e3] at hh; cases hh; have := hhi h' e1; omega
+        obtain ⟨i1, _, _⟩ := distribute_sound v _ hwf lo' hi' hv' hhi' d hd
+        obtain ⟨s, hs'⟩ := rebuild_nonempty hinh (x :: y :: rest) d hs i1 (distribute_ok v _ lo' hi' d hd)
+        exact ⟨rebuild (x :: y :: rest) d, s, e1.symm, hs'⟩
+
+
 end SV.Proofs.C01Regex
